@@ -11,15 +11,15 @@
 (* delimiting the exact domain of multipleOf).                             *)
 (* A *magnitude* below is the SET of exponents.                            *)
 (***************************************************************************)
-EXTENDS Integers, Sequences, FiniteSets
+EXTENDS Integers, Sequences, FiniteSets, FiniteSetsExt
 
 SeqRange(s) == { s[i] : i \in DOMAIN s }
 Mag(n)      == SeqRange(n.bits)
 
-MaxOf(S) == CHOOSE x \in S : \A y \in S : y <= x
-MinOf(S) == CHOOSE x \in S : \A y \in S : x <= y
+\* linear-time maximum / minimum of a non-empty finite set of integers (FoldSet is evaluated iteratively)
+MaxOf(S) == FoldSet(LAMBDA a, acc : IF a > acc THEN a ELSE acc, CHOOSE z \in S : TRUE, S)
+MinOf(S) == FoldSet(LAMBDA a, acc : IF a < acc THEN a ELSE acc, CHOOSE z \in S : TRUE, S)
 
-SymDiff(A, B) == (A \ B) \cup (B \ A)
 
 \* -1, 0, 1 : compare two magnitudes.  The larger one owns the highest exponent on which they differ.
 MagCmp(A, B) == IF A = B THEN 0 ELSE IF MaxOf(SymDiff(A, B)) \in A THEN 1 ELSE -1
@@ -76,15 +76,14 @@ PowMod(e, q) ==
   ELSE LET h == PowMod(e \div 2, q)  hh == (h * h) % q IN
        IF e % 2 = 0 THEN hh ELSE (2 * hh) % q
 
-RECURSIVE SumMod(_, _)
-SumMod(A, q) == IF A = {} THEN 0
-                ELSE LET e == MinOf(A) IN (PowMod(e, q) + SumMod(A \ {e}, q)) % q
+\* (sum of 2^e over e in A) mod q  -- folded iteratively (FiniteSetsExt!FoldSet), so dense magnitudes with
+\* thousands of bits do not recurse
+SumMod(A, q) == FoldSet(LAMBDA e, acc : (PowMod(e, q) + acc) % q, 0, A)
 
 \* value of a small magnitude as a TLC integer (only for magnitudes below 2^30)
 RECURSIVE Pow2(_)
 Pow2(e) == IF e = 0 THEN 1 ELSE 2 * Pow2(e - 1)
-RECURSIVE SmallVal(_)
-SmallVal(A) == IF A = {} THEN 0 ELSE LET e == MinOf(A) IN Pow2(e) + SmallVal(A \ {e})
+SmallVal(A) == FoldSet(LAMBDA e, acc : Pow2(e) + acc, 0, A)
 
 \* odd part and 2-adic valuation of a non-zero magnitude:  A = OddPart(A) * 2^Val2(A)
 Val2(A)    == MinOf(A)
